@@ -27,14 +27,19 @@ RULE = ("one case = (generated program, entry point, sys.tracebacklimit) logged 
         "(backtrace x diagnose x colorize), entry points opt(exception=) / catch decorator / catch context manager / ONE "
         "catch object reused over 2-5 decorator and context-manager uses (last use judged) / 2-3 stacked catch decorators "
         "(inner, middle or outer catching) / decorated callables invoked by loguru (lazy argument, patcher, onerror) / the "
-        "exception first passing through 1-3 catch(reraise=True) wrappers; sys.tracebacklimit in {unset, 0, 1, 3, 2, -1, 5, "
+        "exception first passing through 1-3 catch(reraise=True) wrappers / opt(exception=True) / logger.exception() / an explicit "
+        "(type, value, traceback) tuple whose traceback starts one frame further in / the report produced by a COPY of the logger "
+        "(copy.deepcopy, pickle round trip, both, deep copy of a bound logger; handlers of all 8 modes must keep their options); "
+        "sys.tracebacklimit in {unset, 0, 1, 3, 2, -1, 5, "
         "1000, -7, 4}; sinks attached as callables or as stream objects with encoding ascii / None / unknown codec / "
         "latin-1 / utf-8 (box-drawing or ASCII value arrows); source lines with attribute access on objects whose "
-        "properties raise and with keyword arguments; plus three unit-level streams: synthetic stacks given to "
+        "properties raise and with keyword arguments; plus unit-level streams: synthetic stacks given to "
         "_extract_frames itself (hidden-file patterns x callers x limits x modes, with registered source lines and frame "
-        "variables), the closing-line grid (exception class x __str__ behaviour x raised/source/diagnose), list slices; "
+        "variables), the closing-line grid (exception class x __str__ behaviour x raised/source/diagnose), list slices, "
+        "_format_list on runs of identical frames (vs traceback.StackSummary), enqueue=True handlers with exception objects "
+        "whose pickling misbehaves; "
         "programs are built from call/raise/from/implicit-context/from-None/"
-        "re-raise/notes/groups/groups-in-handlers/cycles/never-raised causes/SyntaxError/recursion/bad __str__/"
+        "re-raise/notes/groups/groups-in-handlers/except* handlers/cycles/never-raised causes/SyntaxError/recursion/bad __str__/"
         "customised __eq__ __hash__ __len__ (unhashable dataclass, raising hash/eq, eq-always-True, value-equal "
         "instances meeting in one chain, falsy) "
         "pieces with secret, huge-repr and raising-repr objects in frame variables; non-trivial = the exception "
@@ -275,7 +280,7 @@ class Prog:
         kinds = ["leaf"] if depth <= 0 or self.nf >= self.max_funcs else \
             ["leaf"] * 2 + ["call"] * 5 + ["from"] * 3 + ["ctx"] * 3 + ["none"] * 2 + ["reraise"] * 2 + ["note"] * 2 + \
             ["group"] * 3 + ["tbnone"] + ["cycle"] * 2 + ["recursion"] * 2 + ["unsuppress"] + ["handlers_group"] + \
-            ["wide"] + ["deepgroup"] + ["finally"]
+            ["wide"] + ["deepgroup"] + ["finally"] + ["exceptstar"] * 2
         kind = r.choice(kinds)
         self.features.add(kind)
         head = "def %s(a):" % name
@@ -325,6 +330,16 @@ class Prog:
             body += ["    try:", "        %s(%s)" % (g1, self.arg()), "    except BaseException as e1:", "        try:",
                      "            %s(%s)" % (g2, self.arg()), "        except BaseException as e2:",
                      "            raise %s(M(), [e1, e2])" % grp]
+        elif kind == "exceptstar":
+            # PEP 654 handlers: the raised exception (wrapped if it is not a group) is split by type; what the handlers
+            # raise is collected into a new group whose members have the matched subgroups as context
+            g = self.make(depth - 1)
+            body += ["    try:", "        %s" % self.call(g)]
+            for typ in self.rng.choice([["ValueError"], ["KeyError", "OSError"], ["AssertionError"], []]):
+                how = self.rng.below(3)
+                body += ["    except* %s as eg:" % typ,
+                         ["        raise", "        raise %s" % self.new_exc(), "        raise %s from eg" % self.new_exc()][how]]
+            body += ["    except* Exception as eg:", "        raise %s from eg" % self.new_exc()]
         elif kind == "wide":
             cls, _ = self.new_class("plain")
             grp, _ = self.new_class(group=True)
@@ -378,11 +393,28 @@ def sink_kind(seed):
     return SINK_KINDS[(seed >> 5) % len(SINK_KINDS)]
 
 
+SINK_REGISTRY = {}
+
+
+def _registered_sink(key):
+    return SINK_REGISTRY[key]
+
+
 class Sink:
-    """callable sink; the first call of a logging event captures the heap from the live objects"""
+    """callable sink; the first call of a logging event captures the heap from the live objects.  A deep copy or a
+    pickle round trip of a logger gives back THIS object (registry), so that the reports of copied handlers arrive
+    where the oracles look."""
 
     def __init__(self, shared, mode):
         self.shared, self.mode = shared, mode
+        self.key = "sink-%d-%d%d%d" % ((id(shared),) + tuple(int(x) for x in mode))
+        SINK_REGISTRY[self.key] = self
+
+    def __deepcopy__(self, memo):
+        return self
+
+    def __reduce__(self):
+        return (_registered_sink, (self.key,))
 
     def __call__(self, message):
         sh = self.shared
@@ -513,7 +545,7 @@ def _raising():
 
 
 def entry_from_dec(entry):
-    if entry.startswith("reraise:"):
+    if entry.startswith("reraise:") or entry.startswith("copy:"):
         return entry.endswith(":d")
     return entry == "decorator" or (entry.startswith("shared:") and entry.endswith(":d")) \
         or entry.startswith("stacked:") or entry.startswith("invoked:")
@@ -535,6 +567,29 @@ def reraise_entries(seed):
     frames then lie in the MIDDLE of the traceback"""
     r = core.Rng(seed ^ 0x4E4A15E)
     return ["reraise:%d:%s" % (r.range(1, 3), r.choice("cd"))]
+
+
+COPY_HOWS = ["deepcopy", "pickle", "pickle+deepcopy", "deepcopy-of-bound"]
+
+
+def copy_entries(seed):
+    """the report is produced by a COPY of the logger the handlers were added to (copy.deepcopy, a pickle round trip,
+    both, or a deep copy of a logger derived with bind()): the handlers - and their backtrace / diagnose / colorize
+    options - must survive copying; judged use: opt(exception=) `o`, catch decorator `d`, catch context manager `c`"""
+    r = core.Rng(seed ^ 0xC0B1ED)
+    return ["copy:%s:%s" % (r.choice(COPY_HOWS), r.choice("oodc"))]
+
+
+def copy_logger(lg, how):
+    import copy
+    import pickle
+    if how == "deepcopy":
+        return copy.deepcopy(lg)
+    if how == "pickle":
+        return pickle.loads(pickle.dumps(lg))
+    if how == "pickle+deepcopy":
+        return copy.deepcopy(pickle.loads(pickle.dumps(lg)))
+    return copy.deepcopy(lg.bind(request="r"))
 
 
 def shared_entries(seed):
@@ -565,16 +620,29 @@ def run_case(src, genfile, entry, limit, sinks="callable"):
     had = hasattr(sys, "tracebacklimit")
     old = getattr(sys, "tracebacklimit", None)
     err = None
+    copies = []
     try:
         if limit is not None:
             sys.tracebacklimit = limit
         try:
-            if entry == "opt":
+            if entry in ("opt", "exc_true", "exc_method", "tuple_next"):
                 try:
                     main()
                 except BaseException as e:
                     shared["root_falsy"] = not safe(lambda: bool(e), True)
-                    logger.opt(exception=e).error("M")
+                    if entry == "opt":
+                        logger.opt(exception=e).error("M")
+                    elif entry == "exc_true":                 # the exception being handled (sys.exc_info())
+                        shared["root_falsy"] = False
+                        logger.opt(exception=True).error("M")
+                    elif entry == "exc_method":
+                        shared["root_falsy"] = False
+                        logger.exception("M")
+                    else:
+                        # an explicit (type, value, traceback) whose traceback is NOT the exception's own: it starts
+                        # one frame further in (or is None when there is no further frame)
+                        shared["root_falsy"] = False
+                        logger.opt(exception=(type(e), e, e.__traceback__.tb_next)).error("M")
             elif entry == "decorator":
                 logger.catch(message="M")(main)()
             elif entry.startswith("stacked:"):
@@ -593,6 +661,21 @@ def run_case(src, genfile, entry, limit, sinks="callable"):
                 else:
                     with logger.catch(message="outer", onerror=logger.catch(message="M")(lambda exc: main())):
                         raise LookupError("outer error")
+            elif entry.startswith("copy:"):
+                _s, how, final = entry.split(":")
+                lg = copy_logger(logger, how)
+                copies.append(lg)
+                if final == "o":
+                    try:
+                        main()
+                    except BaseException as e:
+                        shared["root_falsy"] = not safe(lambda: bool(e), True)
+                        lg.opt(exception=e).error("M")
+                elif final == "d":
+                    lg.catch(message="M")(main)()
+                else:
+                    with lg.catch(message="M"):
+                        main()
             elif entry.startswith("reraise:"):
                 _s, k, final = entry.split(":")
                 fn = main
@@ -645,6 +728,13 @@ def run_case(src, genfile, entry, limit, sinks="callable"):
                 logger.remove(h)
             except ValueError:
                 pass
+        for lg in copies:
+            try:
+                lg.remove()
+            except Exception:
+                pass
+        for k in [k for k, v in SINK_REGISTRY.items() if v.shared is shared]:
+            del SINK_REGISTRY[k]
     if err is None and Holder.touched != touched0:
         err = RuntimeError("the report evaluated a property / __getattr__ of an object in a frame variable")
     if err is None and shared.get("noexc") and shared.get("root_falsy"):
@@ -1395,6 +1485,131 @@ def closing_run(spec):
     return appended, tok, problem
 
 
+# ----------------------------------------------------------------------------- `_format_list` directly (folding of repeats)
+def flist_spec(rng):
+    """a frame sequence as a digit string: runs of 1-9 identical frames over a small alphabet"""
+    out = ""
+    for _ in range(rng.range(0, 6)):
+        out += str(rng.below(3)) * rng.choice([1, 1, 2, 3, 4, 4, 5, 6, 9])
+    return out
+
+
+def flist_canon(lines):
+    out = []
+    for l in lines:
+        m = re.match(r'  File "/synthetic/f(\d)\.py", line', l)
+        r = REPEAT.match(l.rstrip("\n"))
+        out.append("f" + m.group(1) if m else ("r" + r.group(1) if r else "?" + l[:30]))
+    return out
+
+
+def flist_run(spec):
+    """-> (loguru's folding, the standard library's folding of the same frames) in canonical form"""
+    frames = [("/synthetic/f%s.py" % c, 10 + int(c), "fn" + c, "source %s" % c) for c in spec]
+    got = synth_formatter(False, False, False)._format_list(frames)
+    ref = traceback.StackSummary.from_list(frames).format()
+    return flist_canon(got), flist_canon(ref)
+
+
+# ----------------------------------------------------------------------------- enqueue=True: the record is pickled after formatting
+class _NeedsKw(Exception):
+    def __init__(self, *, code):
+        super().__init__("kw %s" % code)
+        self.code = code
+
+
+class _BadReduce(Exception):
+    def __reduce__(self):
+        raise RuntimeError("reduce failed")
+
+
+class _HoldsLambda(Exception):
+    def __init__(self, m):
+        super().__init__(m)
+        self.fn = lambda: 1
+
+
+class _BadSetstate(Exception):
+    def __init__(self, m):
+        super().__init__(m)
+        self.x = 1
+
+    def __setstate__(self, st):
+        raise RuntimeError("setstate failed")
+
+
+class _BadStrQ(Exception):
+    def __str__(self):
+        raise RuntimeError("str failed")
+
+
+def _local_exc():
+    class Local(Exception):
+        pass
+    return Local("local class")
+
+
+ENQUEUE_OBJECTS = {
+    "plain": lambda: ValueError("plain"),
+    "keyword-only __init__ (unpickling fails)": lambda: _NeedsKw(code=3),
+    "__reduce__ raises": lambda: _BadReduce("r"),
+    "holds a lambda (unpicklable value)": lambda: _HoldsLambda("l"),
+    "class defined in a function (unpicklable type)": _local_exc,
+    "__str__ raises": lambda: _BadStrQ("s"),
+    "__setstate__ raises": lambda: _BadSetstate("t"),
+    "group with an unpicklable member": lambda: ExceptionGroup("g", [ValueError(1), _HoldsLambda("in group")]),
+    "chain with an unpicklable cause": lambda: _chain(KeyError("outer"), _HoldsLambda("cause")),
+}
+
+
+def _chain(e, cause):
+    e.__cause__ = cause
+    return e
+
+
+def enqueue_run(name, mode):
+    """log one object through an enqueue=True and a plain handler of the same mode -> (error, queued texts, direct texts)"""
+    from loguru import logger
+    e = ENQUEUE_OBJECTS[name]()
+    try:
+        raise e
+    except BaseException as caught:
+        e = caught
+    out_q, out_d = [], []
+    logger.remove()
+    b, d, c = mode
+    h1 = logger.add(lambda m: out_q.append(str(m)), format="{message}", enqueue=True, catch=False, backtrace=b, diagnose=d, colorize=c)
+    h2 = logger.add(lambda m: out_d.append(str(m)), format="{message}", enqueue=False, catch=False, backtrace=b, diagnose=d, colorize=c)
+    err = None
+    try:
+        try:
+            logger.opt(exception=e).error("M")
+            logger.complete()
+        except BaseException as x:
+            if isinstance(x, (KeyboardInterrupt, SystemExit)):
+                raise
+            err = x
+    finally:
+        for h in (h1, h2):
+            try:
+                logger.remove(h)
+            except ValueError:
+                pass
+    return err, out_q, out_d
+
+
+def enqueue_judge(name, mode, err, out_q, out_d):
+    if err is not None:
+        return "oracle 3 (never fails): %s escaped from logging an exception (%s) to an enqueue=True handler: %r" % (
+            type(err).__name__, name, err)
+    if len(out_q) != 1 or len(out_d) != 1:
+        return "oracle 3 (never fails): %d / %d reports reached the enqueue=True / plain sink for an exception (%s)" % (
+            len(out_q), len(out_d), name)
+    if out_q != out_d:
+        return "the enqueue=True handler reports an exception (%s) differently from the plain handler of the same mode" % name
+    return None
+
+
 SLICE_BOUNDS = [None, -7, -6, -5, -4, -2, -1, 0, 1, 2, 4, 5, 6, 7, 10 ** 9, -10 ** 9]
 
 
@@ -1518,13 +1733,14 @@ def run(ctx):
     probe_f12(ctx)
     run_corpus(ctx, lines, pending)
 
-    nprog = ctx.n(320, 300) * boost
+    nprog = ctx.n(260, 230) * boost
     std_lines, std_expect = [], []
     for i in range(nprog):
         seed = rng.next()
         src, features = gen_case(seed)
-        all_entries = ENTRIES + shared_entries(seed) + indirect_entries(seed) + reraise_entries(seed)
-        entries = [all_entries[i % 8]] if ctx.quick else all_entries
+        all_entries = ENTRIES + shared_entries(seed) + indirect_entries(seed) + reraise_entries(seed) + \
+            [("exc_true", "exc_method")[(seed >> 9) % 2], "tuple_next"] + copy_entries(seed)
+        entries = [all_entries[i % 11]] if ctx.quick else all_entries
         all_limits = LIMITS + MORE_LIMITS
         if ctx.quick:
             limits = [all_limits[(i // 3) % len(all_limits)]] if i % 2 else [None]
@@ -1613,7 +1829,41 @@ def run(ctx):
             continue
         cl_lines.append("closing %d %d %d %d %s" % (spec[5], spec[3], spec[4] and spec[3], spec[0].startswith("Assert"), tok))
         cl_exp.append((spec, "ok %d" % appended))
-    out = drv.run(lines + std_lines + val_lines + use_lines + syn_lines + sl_lines + cl_lines)
+    # ---- enqueue=True handlers: the record (with the exception) is pickled after the text is formatted
+    for k, name in enumerate(sorted(ENQUEUE_OBJECTS)):
+        for mode in (MODES if not ctx.quick else [MODES[(k + ctx.seed) % 8], MODES[0]]):
+            ctx.case(("enqueue", name, mode), nontrivial=True)
+            ctx.stat("enqueue")
+            why = enqueue_judge(name, mode, *enqueue_run(name, mode))
+            if why:
+                ctx.violation(why, {"stream": "enqueue", "name": name, "mode": list(mode), "oracle": "enqueue"})
+    # ---- `_format_list` itself: folding of repeated frames vs the standard library's and vs `Exc.formatListLoop`
+    fl_rng = rng.fork("flist")
+    fl_lines, fl_exp = [], []
+    for _ in range(ctx.n(400, 6000)):
+        spec = flist_spec(fl_rng)
+        ctx.case(("flist", spec), nontrivial=len(spec) > 3)
+        try:
+            got, ref = flist_run(spec)
+        except Exception as e:
+            ctx.violation("oracle 3 (never fails): _format_list raised %r on the frame sequence %r" % (e, spec),
+                          {"stream": "flist", "spec": spec, "oracle": "flist"})
+            continue
+        if got != ref:
+            ctx.violation("oracle 1 (standard traceback): the frame sequence %r is folded as %r, traceback.StackSummary "
+                          "folds it as %r" % (spec, " ".join(got), " ".join(ref)), {"stream": "flist", "spec": spec, "oracle": "flist"})
+            continue
+        fl_lines.append("fl " + (spec or "-"))
+        fl_exp.append((spec, "ok" + "".join(" " + t for t in got)))
+    out = drv.run(lines + std_lines + val_lines + use_lines + syn_lines + sl_lines + cl_lines + fl_lines)
+    for (spec, want), o in zip(fl_exp, out[len(out) - len(fl_lines):] if fl_lines else []):
+        ctx.evaluations += 1
+        if o != want:
+            ctx.broke("correspondence Exc.formatListLoop", "%r: impl %r model %r" % (spec, want, o))
+            ctx.violation("_format_list and the model disagree on the frame sequence %r: impl %r, model %r" % (spec, want, o),
+                          {"stream": "flist", "spec": spec, "oracle": "model"}, kind="correspondence")
+            break
+    out = out[:len(out) - len(fl_lines)] if fl_lines else out
     for (spec, want), o in zip(cl_exp, out[len(out) - len(cl_lines):] if cl_lines else []):
         ctx.evaluations += 1
         if o != want:
@@ -1710,6 +1960,31 @@ def replay(ctx, rep):
     lines, pending = [], []
     if r.get("stream") == "witness":
         probe_f12(c)
+    elif r.get("stream") == "enqueue":
+        err, out_q, out_d = enqueue_run(r["name"], tuple(r["mode"]))
+        why = enqueue_judge(r["name"], tuple(r["mode"]), err, out_q, out_d)
+        print("exception object: %s; handlers with (backtrace, diagnose, colorize) = %r, one enqueue=True, one plain" % (r["name"], r["mode"]))
+        print("escaped:", repr(err), " reports:", len(out_q), "/", len(out_d))
+        if why:
+            print("violation:", why)
+        print("REPRODUCED" if why else "not reproduced")
+        return 1 if why else 0
+    elif r.get("stream") == "flist":
+        spec = r["spec"]
+        got, ref = flist_run(spec)
+        print("frame sequence (one digit per frame):", spec or "-")
+        print("_format_list            :", " ".join(got))
+        print("traceback.StackSummary  :", " ".join(ref))
+        bad = got != ref
+        if r.get("oracle") == "model":
+            try:
+                o = core.Driver(DRIVER).run(["fl " + (spec or "-")])[0]
+                print("model                   :", o)
+                bad = bad or o != "ok" + "".join(" " + t for t in got)
+            except core.DriverError:
+                print("model                   : (driver does not build against this tree)")
+        print("REPRODUCED" if bad else "not reproduced")
+        return 1 if bad else 0
     elif r.get("stream") == "closing":
         spec = r["spec"]
         spec[2] = tuple(spec[2])
